@@ -821,11 +821,93 @@ def decorate(rng, lines, target, fillers, indent):
 
 
 # ------------------------------------------------------------------ C08: single-token corruptions with known position
+def aig_lf_corruption(rng):
+    """binary AIGER: an and-gate section that contains bytes 0x0A (a delta of 10, or a two-byte delta 1280..1407 whose
+    last byte is 0x0A), then one corrupted token in the symbol table or the comment section: every LF byte of the file
+    is a line break, so the expected line is 1 + the number of LF bytes before the token"""
+    ty = rng.choice(list(AIGER_TYPES))
+    mlim = (AIGER_TYPES[ty] - 1) // 2
+    big = ty != "u8" and rng.random() < 0.5
+    I = rng.choice([640, 700, 5000]) if big else rng.choice([4, 5, 9, 40])    # binary inputs are implicit: no bytes
+    L = rng.choice([0, 0, 1, 2])
+    A = rng.choice([1, 2, 3, 6])
+    M = I + L + A
+    assert M <= mlim
+    def anylit():
+        return rng.randrange(0, 2 * M + 2)
+    def delta(code):
+        ch = [0, min(1, code), rng.randrange(0, code + 1)]
+        if code >= 10:
+            ch += [10, 10, 10]
+        if code >= 1408:
+            ch += [1280 + rng.randrange(0, 128)] * 3
+        return rng.choice(ch)
+    ands = []
+    for j in range(A):
+        code = 2 * (I + L + 1 + j)
+        a = code - delta(code)
+        b = a - delta(a)
+        ands.append((code, a, b))
+    latches = [(2 * (I + 1 + j), anylit(), rng.choice(["0", "1", "x"])) for j in range(L)]
+    O, B, C, F = [rng.choice([0, 0, 1, 2]) for _ in range(4)]
+    J = rng.choice([0, 0, 1])
+    val = {"ty": ty, "M": M, "I": I, "latches": latches, "outputs": [anylit() for _ in range(O)],
+           "bad": [anylit() for _ in range(B)], "constraints": [anylit() for _ in range(C)],
+           "justice": [[anylit() for _ in range(k)] for k in justice_sizes(rng, J)],
+           "fairness": [anylit() for _ in range(F)], "ands": ands, "symbols": [], "comment": None}
+    body, _ = render_aig(val, True)
+    g0, g1 = LAST["gate_span"]
+    assert g1 == len(body)
+    if 10 not in body[g0:g1] and rng.random() < 0.85:
+        return None
+    counts = {"i": I, "l": L, "o": O, "b": B, "c": C, "j": J, "f": F}
+    syms = [(k, rng.randrange(counts[k]), gen_name(rng)) for k in "ilobcjf" if counts[k] and rng.random() < 0.5]
+    comment = rng.choice([None, "a comment", "two\nlines", "c\nnested c", "utf8 äö ✓", "x"])
+    if not syms and comment is None:
+        syms = [("i", rng.randrange(I), "x")]
+    lines = [("%s%d %s" % sy).encode() for sy in syms]
+    what = rng.choice(["letter", "index", "index", "comment"])
+    if what == "comment" and not comment:
+        what = "index" if syms else "letter"
+    if what != "comment" and not syms:
+        what = "comment"
+    pos = len(body)
+    if what == "comment":
+        for l in lines:
+            pos += len(l) + 1
+        c = bytearray(comment.encode())
+        at = rng.choice([i for i in range(len(c) + 1) if i == len(c) or not 0x80 <= c[i] <= 0xbf])   # between characters
+        c[at:at] = b"\xff"
+        tail = b"".join(l + b"\n" for l in lines) + b"c\n" + bytes(c) + b"\n"
+        pos += 2 + at
+        width = 1
+    else:
+        si = rng.randrange(len(syms))
+        for l in lines[:si]:
+            pos += len(l) + 1
+        k, idx, name = syms[si]
+        if what == "letter":
+            new = b"x"
+            lines[si] = new + lines[si][1:]
+        else:
+            new = rng.choice(["x", "-1", "99999999999999999999999", str(counts[k]), str(counts[k] + 7)]).encode()
+            lines[si] = k.encode() + new + b" " + name.encode()
+            pos += 1
+        width = len(new)
+        tail = b"".join(l + b"\n" for l in lines)
+        if comment is not None:
+            tail += b"c\n" + comment.encode() + b"\n"
+    data = body + tail
+    line_no = 1 + data[:pos].count(b"\n")
+    col = pos - (data.rfind(b"\n", 0, pos) + 1) + 1
+    return ("aig", ty, rng.choice(["-", "-", "w"]), data, "ERRAT %d %d %d" % (line_no, col, col + width - 1))
+
+
 def corruption_cases(rng, n):
     """a well-formed document, one token corrupted; expectation 'ERRAT line col_lo col_hi'"""
     out = []
     while len(out) < n:
-        kind = rng.choice(["cnf", "wcnf", "gcnf", "aag", "btor2", "cnf", "cnf"])
+        kind = rng.choice(["cnf", "wcnf", "gcnf", "aag", "btor2", "cnf", "cnf", "aig"])
         if kind in ("cnf", "wcnf", "gcnf"):
             ty = rng.choice(list(DIMACS_TYPES))
             val = gen_dimacs_value(rng, kind, ty, with_header=rng.random() < 0.7)
@@ -884,6 +966,10 @@ def corruption_cases(rng, n):
             col = 1 + sum(len(t) + 1 for t in toks[:ti])
             lines[li] = " ".join(toks)
             out.append(("aag", ty, "-", ("\n".join(lines) + "\n").encode(), "ERRAT %d %d %d" % (li + 1, col, col + len(new) - 1)))
+        elif kind == "aig":
+            case = aig_lf_corruption(rng)
+            if case is not None:
+                out.append(case)
         else:
             lines = [l for l in gen_btor2_lines(rng, rng.choice([2, 5, 9])) if not l.startswith(";")]
             if not lines:
